@@ -13,7 +13,7 @@ use crate::spec::Item;
 pub static DEF: PropDef = PropDef {
     id: "C14",
     level: "fault_enumeration",
-    rule: "each case: one valid known-size document (real writer or reference encoder) and, at EVERY tag boundary (offset of every element but the first; documents up to 60 elements, else 40 random boundaries), a junk run of length 1-40 drawn from bytes that are not the first byte of any id of the specification (computed per specification, runs of 0x00 included). The damaged stream is parsed with unknown ids never tolerated and the other two tolerance switches varied: next() until the first error, then try_recover(), then next() to the end. The precondition 'the tag after the junk still fits inside every enclosing known-size master after the shift' is evaluated from the layout. When it holds: items before the junk are unchanged, exactly one error is reported, try_recover() succeeds, and every remaining item equals the undamaged parse with offsets shifted by the junk length. In every case (also junk before the first tag / after the last one / precondition false): try_recover() does not panic or exceed its step budget, fails only with UnexpectedEOF or ReadError (also when called again and again after it reported end of input, interleaved with next()), and no item after recovery reports an offset before the position of the reported error. distinct = (depth of the boundary, junk length class, fits / does not fit, junk class); non-trivial iff the boundary is inside at least one master.",
+    rule: "each case: one valid document (real writer or reference encoder; two thirds all known-size, one third with unknown-size masters mixed in) and, at EVERY tag boundary (offset of every element but the first; documents up to 60 elements, else 40 random boundaries), a junk run of length 1-40 drawn from bytes that are not the first byte of any id of the specification (computed per specification, runs of 0x00 included). The damaged stream is parsed with unknown ids never tolerated and the other two tolerance switches varied: next() until the first error, then try_recover(), then next() to the end. The precondition 'the tag after the junk still fits inside every enclosing known-size master after the shift' is evaluated from the layout. When it holds: items before the junk are unchanged, exactly one error is reported, try_recover() succeeds, and every remaining item equals the undamaged parse with offsets shifted by the junk length. In every case (also junk before the first tag / after the last one / precondition false): try_recover() does not panic or exceed its step budget, fails only with UnexpectedEOF or ReadError (also when called again and again after it reported end of input, interleaved with next()), and no item after recovery reports an offset before the position of the reported error. distinct = (depth of the boundary, junk length class, fits / does not fit, junk class); non-trivial iff the boundary is inside at least one master.",
     assumptions: &["layout of the valid document (reference decoder)", "junk bytes are chosen so that no position inside the junk can start a specification-valid tag"],
     cases_quick: 120_000,
     cases_thorough: 1_500_000,
@@ -24,7 +24,8 @@ pub static DEF: PropDef = PropDef {
 
 fn run(c: &mut Case) {
     let mut m = Mix::MOSTLY_VALID;
-    m.p_unknown = 0;
+    // a third of the documents mix unknown-size masters in (the statement speaks of every enclosing *known-size* master)
+    m.p_unknown = *c.rng.pick(&[0u64, 0, 30]);
     m.small = c.rng.chance(1, 2);
     let inp = gen_valid(&mut c.rng, c.tier, &m);
     inp.spec.install();
